@@ -25,16 +25,20 @@ def run(eng, R):
     KS = ["self.reference", "self.error", "self.error_rel", "self._err", "self._err_rel", "()abs", "err_val"]
     check(eng, R, "H-conv", GS, "uncertainty", "assign", "self._uncertainty_rel * self.value", target="self._uncertainty_abs", what="absolute = relative x value")
     check(eng, R, "H-conv", GS, "uncertainty_rel", "assign", "self._uncertainty_abs / self.value", target="self._uncertainty_rel", what="relative = absolute / value")
-    check(eng, R, "H-conv", GM, "cov_mat", "assign", "self._cov_mat_rel * outer(self.values, self.values)", target="self._cov_mat_abs", when="=(self.matrix_type == 'cov')", what="absolute covariance = relative covariance x outer(values, values)", known=KM)
-    check(eng, R, "H-conv", GM, "cov_mat", "assign", "self._cor_mat * outer(self.uncertainties, self.uncertainties)", target="self._cov_mat_abs", when="=not (self.matrix_type == 'cov')", what="covariance = correlation x outer(sigma, sigma)", known=KM)
-    check(eng, R, "H-conv", GM, "cov_mat_rel", "assign", "self._cov_mat_abs / outer(self.values, self.values)", target="self._cov_mat_rel", when="=(self.matrix_type == 'cov')", what="relative covariance = covariance / outer(values, values)", known=KM)
-    check(eng, R, "H-conv", GM, "cov_mat_rel", "assign", "self._cor_mat * outer(self.uncertainties_rel, self.uncertainties_rel)", target="self._cov_mat_rel", when="=not (self.matrix_type == 'cov')", what="relative covariance = correlation x outer(relative sigma, relative sigma)", known=KM)
-    check(eng, R, "H-conv", GM, "cor_mat", "assign", "self.cov_mat_rel / outer(self.uncertainties_rel, self.uncertainties_rel)", target="self._cor_mat", when="=(self._relative)", what="correlation = relative covariance / outer(relative sigma)", known=KM)
-    check(eng, R, "H-conv", GM, "cor_mat", "assign", "self.cov_mat / outer(self.uncertainties, self.uncertainties)", target="self._cor_mat", when="=not (self._relative)", what="correlation = covariance / outer(sigma, sigma)", known=KM)
-    check(eng, R, "H-conv", GM, "uncertainties", "assign", "sqrt(diag(self.cov_mat))", target="self._uncertainties_abs", when="=(self.matrix_type == 'cov')", what="sigma = sqrt(diag(covariance))", known=KM)
-    check(eng, R, "H-conv", GM, "uncertainties", "assign", "self.uncertainties_rel * self.values", target="self._uncertainties_abs", when="=not (self.matrix_type == 'cov')", what="sigma = relative sigma x values", known=KM)
-    check(eng, R, "H-conv", GM, "uncertainties_rel", "assign", "sqrt(diag(self.cov_mat_rel))", target="self._uncertainties_rel", when="=(self.matrix_type == 'cov')", what="relative sigma = sqrt(diag(relative covariance))", known=KM)
-    check(eng, R, "H-conv", GM, "uncertainties_rel", "assign", "self.uncertainties / self.values", target="self._uncertainties_rel", when="=not (self.matrix_type == 'cov')", what="relative sigma = sigma / values", known=KM)
+    from .formulas import check_branches
+
+    KMA = KM + ["()abs"]
+    C, NC = "=(self.matrix_type == 'cov')", "=not (self.matrix_type == 'cov')"
+    check_branches(eng, R, "H-conv", GM, "cov_mat", "self._cov_mat_abs", [(C, "self._cov_mat_rel * outer(self.values, self.values)"), (NC, "self._cor_mat * outer(self.uncertainties, self.uncertainties)")],
+                   what="absolute covariance = relative covariance x outer(values, values) / correlation x outer(sigma, sigma)", known=KMA)
+    check_branches(eng, R, "H-conv", GM, "cov_mat_rel", "self._cov_mat_rel", [(C, "self._cov_mat_abs / outer(self.values, self.values)"), (NC, "self._cor_mat * outer(self.uncertainties_rel, self.uncertainties_rel)")],
+                   what="relative covariance = covariance / outer(values, values) / correlation x outer(relative sigma, relative sigma)", known=KMA)
+    check_branches(eng, R, "H-conv", GM, "cor_mat", "self._cor_mat", [("=(self._relative)", "self.cov_mat_rel / outer(self.uncertainties_rel, self.uncertainties_rel)"), ("=not (self._relative)", "self.cov_mat / outer(self.uncertainties, self.uncertainties)")],
+                   what="correlation = (relative) covariance / outer((relative) sigma)", known=KMA)
+    check_branches(eng, R, "H-conv", GM, "uncertainties", "self._uncertainties_abs", [(C, "sqrt(diag(self.cov_mat))"), (NC, "self.uncertainties_rel * self.values")],
+                   what="sigma = sqrt(diag(covariance)) / relative sigma x values (signed, as the relative covariance is divided by signed values)", known=KMA)
+    check_branches(eng, R, "H-conv", GM, "uncertainties_rel", "self._uncertainties_rel", [(C, "sqrt(diag(self.cov_mat_rel))"), (NC, "self.uncertainties / self.values")],
+                   what="relative sigma = sqrt(diag(relative covariance)) / sigma over values (signed)", known=KMA)
     MG = "MatrixGaussianError"
     check(eng, R, "H-conv", MG, "_calculate_cov_mat_from_cor_mat_and_error_array", "return", "CovMat(outer(error_array, error_array) * corr_mat)", what="covariance = outer(sigma, sigma) o correlation")
     check(eng, R, "H-conv", MG, "_calculate_cov_mat_rel_from_cov", "return", "CovMat(cov_mat / outer(reference, reference))", known=["cov_mat", "reference", "()abs"], what="relative covariance = covariance / outer(reference, reference)")
